@@ -15,6 +15,10 @@ from vx.api import Unit, Fn, Copy, Raw, Group
 from vx import ovlrules as R
 from vx.units import ovl_common as C
 from vx.units import ovl_real as RL
+import os
+
+# REC at scan time (findings O6 / O7, reproduced): see unit ovl_ops.  False (env VX_OVL_REC=0) = leave the obligation out.
+CHECK_LOWER_RECORD = os.environ.get('VX_OVL_REC', '1') != '0'
 
 OVL = C.OVL
 OI = 'impl OverlayInode'
@@ -112,6 +116,10 @@ pub proof fn lemma_consumed_all<V>(d: Map<Seq<char>, V>, l: Seq<(String, V)>, nm
 {
     if d.contains_key(nm) { let i = choose|i: int| 0 <= i < l.len() && (#[trigger] l[i]).0@ == nm; assert(consumed(l, l.len() as int, nm)); }
     if consumed(l, l.len() as int, nm) { let q = choose|q: int| 0 <= q < l.len() && (#[trigger] l[q]).0@ == nm; assert(d.contains_key(l[q].0@)); }
+}
+// the lower layers alone would show the name: the first entry that is not in the upper layer is not a whiteout
+pub open spec fn lower_shows(c: Seq<RealInode>) -> bool {
+    exists|i: int| 0 <= i < c.len() && !(#[trigger] c[i]).in_upper_layer && !c[i].whiteout && forall|j: int| 0 <= j < i ==> (#[trigger] c[j]).in_upper_layer
 }
 // dispatch of handle_upper_inode_locked: the first real inode if it lives in the upper layer (rule R29 inlines closures against this)
 pub open spec fn sp_upper(v: Seq<RealInode>) -> Option<RealInode> { if v.len() > 0 && v[0].in_upper_layer { Some(v[0]) } else { None } }
@@ -265,6 +273,8 @@ def unit(root='/repo'):
             decreases ri_it.rem().len(),
         ''' % CTX0)]
     newn.splices.append(('let mut new = Self::new();', 'after', 'let ghost old_path = path@;'))
+    if CHECK_LOWER_RECORD:
+        newn.ensures.append('r is Ok && !r->Ok_0.whiteout.v && lower_shows(real_inodes@) ==> exists|i: int| 0 <= i < r->Ok_0.ris().len() && !(#[trigger] r->Ok_0.ris()[i]).in_upper_layer // [C11.union.lower_record] a visible node whose name the lower layers show keeps a lower real inode on record (do_rm needs it to leave a whiteout)')
     fns.append(newn)
     fns.append(Fn(OVL, OI, 'stat64', props=['C10'], body_resub=[LOCK_RO], ensures=OI_CONTRACTS['stat64']['ensures'],
                   splices=[('for l in self.real_inodes.lock_ro().unwrap().iter() {', 'replace', 'for l in it: self.real_inodes.lock_ro().unwrap().iter()\n            invariant it.seq().len() == self.ris().len(), forall|i: int| 0 <= i < self.ris().len() ==> *it.seq()[i] == self.ris()[i],\n        {')]))
@@ -298,5 +308,5 @@ def unit(root='/repo'):
     fns.append(scan)
     items.append(Group('impl OverlayInode {', fns))
     u = Unit('ovl_merge', items, preludes=['base.rs', 'stdmodel.rs'], generic_tags=C.GENERIC_TAGS, notes='; '.join(notes))
-    u.prelude_subst = [('use std::collections::HashMap;', ''), ('Mutex', 'MutexRo'), ('AtomicBool', 'AtomicBoolRo')]
+    u.prelude_subst = [C.LIBC_EXTRA, C.NO_STD_HASHMAP, ('Mutex', 'MutexRo'), ('AtomicBool', 'AtomicBoolRo')]
     return u
